@@ -128,7 +128,7 @@ def make_out(MAX, epnum=3):
         c.cover("duplicate_acked", z3.And(resp, z3.Not(matches), exp == 1))
         c.cover("clear_while_data1", z3.And(clear, exp == 1))
         c.cover("foreign_clear_while_data1", z3.And(foreign, exp == 1, bits(ch, 5, 2) == epnum))
-        c.cover("nak", z3.And(resp, O["o_nak"] == 1))
+        c.cover("nak", z3.And(resp, O["o_nak"] == 1), reach=(MAX <= 8))    # needs a full FIFO (2*MAX-1 bytes)
         c.cover_depth = 30
     return contract
 
